@@ -281,6 +281,11 @@ def run(ctx):
 
     # rotating the material axes rotates the law, whatever the notation the material was given in
     ctx.attempt(_c11.notation_rotation_rule, ctx)
+    from . import c08 as _c08
+    from ..elems import ElemLib as _EL
+
+    # 'reflecting a whole problem ... loads': the normals a pressure acts along follow the reflection
+    ctx.attempt(_c08.reflection_orientation_rule, ctx, _EL(ctx.repo), "R10.10")
     # a re-oriented member / material gives the re-oriented response also on a simulation that was already assembled: no memo keyed by an object whose axes it reads
     from ..shared import memo_rule as _memo_rule, cached_param_rule as _cached_param_rule
 
